@@ -480,6 +480,14 @@ def percent_format(fmt, args):
     if fmt == '%02x' and type(args) is SymInt:
         if bool((args >= 0) & (args <= 255)):
             return HexStr([args])
+    if isinstance(fmt, str) and not isinstance(args, dict) and '%(' not in fmt:
+        # the argument-count error is raised eagerly, as Python does (the rendering itself stays lazy)
+        nspec = len([m for m in re.findall(r'%[#0\- +]*\d*(?:\.\d+)?([sdrixXfeEgGcoa%])', fmt) if m != '%'])
+        nargs = len(args) if isinstance(args, tuple) else 1
+        if nargs > nspec:
+            raise TypeError('not all arguments converted during string formatting')
+        if nargs < nspec:
+            raise TypeError('not enough arguments for format string')
     r = LazyStr(lambda: _percent_format(fmt, args))
     r.__dict__['fmt'] = fmt
     r.__dict__['args'] = args
